@@ -104,7 +104,7 @@ def gen_cases(ctx):
                       crash_points=[0, 1, 2, Te] if quick else None, interleave=not quick))
   if not quick:
     # random Distributed Shampoo configurations from the C07 generator which the C07 model of
-    # TODAY's code (as_is) predicts to run (open C07 defects would make the others die in update;
+    # TODAY's code (defect flags of the open C07 findings) predicts to run (the others die in update;
     # C07 reports those)
     rows, _ = c07.gen_ds(ctx, 900, 0)
     cand = []
@@ -116,7 +116,8 @@ def gen_cases(ctx):
     cand = cand[:400]
     hdr = ("From Coq Require Import QArith.\nFrom Precond Require Import Base.PyLib C07.Layout "
            "C07.Model C07.ModelTF C07.Check.\nOpen Scope Z_scope.\n")
-    bugs = c07.coq_bugs(set(c07.BUG_FLAGS))
+    open7 = common.load_known_findings("C07")
+    bugs = c07.coq_bugs(set(fl for fl in c07.BUG_FLAGS if c07.finding_for_flag(open7, fl) is not None))
     terms = ["code (obind (ds_init %s %s %s) (fun l => obind (ds_update %s %s %s l) (fun l2 => "
              "if layout_eqb l l2 then Ok l else Internal [0])))" % (
         bugs, c07.coq_dscfg(cfg), c07.coq_layout(c07.tree_sig(tr)),
@@ -126,8 +127,6 @@ def gen_cases(ctx):
     for (cfg, tr), v in zip(cand, vals):
       if v.replace(" ", "") != "(0,[])" or nrand >= 48:
         continue
-      if cfg.get("frequent_directions") and cfg.get("average_grad"):
-        continue          # D8 territory (layout change, reported by the dedicated case)
       nrand += 1
       cases.append(dict(name="ds-random-%d" % len(cases), opt="ds", cfg=cfg, tree=tr, tree_b=tr, T=6,
                         exec="jit", crash_points=[0, 1, 3, 6]))
